@@ -6,10 +6,13 @@ import (
 	"encoding/json"
 	"fmt"
 	"os"
+	"reflect"
 	"sort"
 	"strings"
 	"time"
+	"unsafe"
 
+	"github.com/GuanceCloud/platypus/pkg/ast"
 	"github.com/GuanceCloud/platypus/pkg/engine"
 	plrt "github.com/GuanceCloud/platypus/pkg/engine/runtime"
 	"github.com/GuanceCloud/platypus/pkg/errchain"
@@ -364,12 +367,16 @@ func c09CheckSet(w *run.Worker, set map[string]c09Var, allParseOrders bool) {
 					}
 					w.Violate("C09:"+kind+":"+c09Shape(set, n), fmt.Sprintf("script %s: loader says accepted=%v, reference (graph reachability) says %v; link order %v\n%s\n%s", n, accepted, want[n], lo, why, describe()), cs)
 				case accepted:
-					// every use call is bound to the accepted script of that name
-					for _, call := range ok[n].CallRef {
+					// every use call IN THE TREE (found by walking it, not through the loader's own list) is bound to the accepted script of that name
+					calls := c09UseCalls(ok[n].Ast)
+					if len(calls) != len(set[n].Uses) {
+						w.Violate("C09:harness:use-calls-not-found", fmt.Sprintf("script %s has %d use calls, the tree walk found %d\n%s", n, len(set[n].Uses), len(calls), describe()), cs)
+					}
+					for ci, call := range calls {
 						tgt := call.Param[0].StringLiteral().Val
 						bound, _ := call.PrivateData.(*plrt.Script)
 						if bound == nil || bound != ok[tgt] {
-							w.Violate("C09:use-bound-to-wrong-script", fmt.Sprintf("in accepted script %s, use(%q) is bound to %p, the accepted script is %p; link order %v\n%s", n, tgt, bound, ok[tgt], lo, describe()), cs)
+							w.Violate("C09:use-bound-to-wrong-script:"+c09Shape(set, n), fmt.Sprintf("in accepted script %s, use call #%d use(%q) is bound to %p, the accepted script is %p; link order %v\n%s", n, ci, tgt, bound, ok[tgt], lo, describe()), cs)
 						}
 					}
 				default:
@@ -391,6 +398,60 @@ func c09CheckSet(w *run.Worker, set map[string]c09Var, allParseOrders bool) {
 			}
 		}
 	}
+}
+
+// c09UseCalls collects the use(...) call expressions of a tree in source order
+// by reflection over the syntax tree (PrivateData is not followed).
+func c09UseCalls(stmts ast.Stmts) []*ast.CallExpr {
+	var out []*ast.CallExpr
+	seen := map[uintptr]bool{}
+	var walk func(v reflect.Value)
+	walk = func(v reflect.Value) {
+		switch v.Kind() {
+		case reflect.Ptr:
+			if v.IsNil() || seen[v.Pointer()] {
+				return
+			}
+			seen[v.Pointer()] = true
+			if ce, ok := v.Interface().(*ast.CallExpr); ok {
+				if ce.Name == "use" {
+					out = append(out, ce)
+				}
+				for _, p := range ce.Param {
+					walk(reflect.ValueOf(p))
+				}
+				return
+			}
+			walk(v.Elem())
+		case reflect.Interface:
+			if !v.IsNil() {
+				walk(v.Elem())
+			}
+		case reflect.Struct:
+			if !strings.HasSuffix(v.Type().PkgPath(), "platypus/pkg/ast") {
+				return
+			}
+			for i := 0; i < v.NumField(); i++ {
+				f := v.Field(i)
+				if !f.CanInterface() {
+					if !f.CanAddr() {
+						continue
+					}
+					f = reflect.NewAt(f.Type(), unsafe.Pointer(f.UnsafeAddr())).Elem() // unexported field (Node.elem)
+				}
+				if v.Type().Field(i).Name == "PrivateData" {
+					continue
+				}
+				walk(f)
+			}
+		case reflect.Slice:
+			for i := 0; i < v.Len(); i++ {
+				walk(v.Index(i))
+			}
+		}
+	}
+	walk(reflect.ValueOf(stmts))
+	return out
 }
 
 // c09Shape: a coarse class of the dependency situation of script n.
@@ -543,7 +604,7 @@ func init() {
 		Rule: "script sets over names {a,b,c,d}: each script is valid with an ordered list of <=2 use targets in {a,b,c,d,missing} (31 variants), unparsable, check-failing, or check-failing with a multi-entry error chain; ALL sets of 1..3 scripts (34+34^2+34^3) under ALL parse/check orders x ALL link orders of the loader's two map iterations (overlay rewrite of the range statements), " +
 			"4-script sets with <=1 use each and all 4-sets of valid scripts with <=2 distinct existing targets (quick) / all 34^4 (thorough) under all 24 link orders; every (set, order) is a fresh ParseScript; oracle: verdict map == graph-reachability reference (hence equal across orders), every use call of an accepted script bound to the accepted script of that name, " +
 			"a dependency-rejected script's position chain = root cause (callee's own error, use of a missing name, or cycle-closing call) followed by the use call sites outward, every entry inside the file it names; plus the unmodified map order 8x on a third of the 3-script sets (conformance of the seam)",
-		Assumptions: []string{"the loader's only nondeterminism is the iteration order of its two script maps (checked by grep: pkg/engine has no other map range, goroutine or clock)"},
+		Assumptions:    []string{"the loader's only nondeterminism is the iteration order of its two script maps (checked by grep: pkg/engine has no other map range, goroutine or clock)"},
 		Run:            c09Run,
 		Replay:         c09Replay,
 		QuickBudget:    5 * time.Minute,
